@@ -97,7 +97,7 @@ class C02(fw.Prop):
             "every diagnostic x every release reason x plain and ciphered user-information from the C01 generator x optional components "
             "absent/empty/long; inconsistent combinations (mechanism none with a password, LLS without one) generated on purpose; each value: "
             "to_bytes() = Spec.Acse.encode (driver), independent BER nesting walk, from_bytes(to_bytes()) canonically equal; "
-            "every decoded AARQ/AARE/RLRQ/RLRE is overwritten in place (fields, user-information) and the bytes decoded again; ciphered user-information of 100..1000 and 65 600 bytes in every APDU kind; non-trivial = distinct protocol line")
+            "every decoded AARQ/AARE/RLRQ/RLRE is overwritten in place (fields, user-information) and the bytes decoded again; ciphered user-information of 100..1000 and 65 600 bytes in every APDU kind; ciphered user-information with every security-control variant (key-set / compression bits alone and together) and lengths 246..256, 65531; non-trivial = distinct protocol line")
     trusted_base = ["Spec.Acse is my reading of the Green Book ACSE APDUs", "C01 for the xDLMS APDU inside user-information",
                     "asn1crypto's DER writer for the result-source-diagnostic"]
     assumptions = ["the pass-through components the library gives no meaning to (called-AP-title etc., implementation-information) are absent",
@@ -110,6 +110,19 @@ class C02(fw.Prop):
     chunk = 2500
 
     def make_case(self, d):
+        if d.get("ui") is not None:
+            # (the user-information bytes of the driver line are the library's xDLMS encoding - C01's subject; if the library
+            #  cannot even produce them for a value of the domain, that is what the case reports)
+            try:
+                user_info_obj(d["ui"])
+            except fw._Timeout:
+                raise
+            except Exception as e:  # noqa
+                name = type(e).__name__
+                return fw.Case("echo user-information", lambda: "ok user-information !cannot-be-encoded:" + name, "prop", d, tags=(d["k"], "ui-not-encodable"))
+        return self.make_case_(d)
+
+    def make_case_(self, d):
         k = d["k"]
         from_hex = lambda x: None if x is None else bytes.fromhex(x)
         if k == "aarq":
@@ -251,11 +264,13 @@ class C02(fw.Prop):
         def ires():
             return dict(k="ires", qos=0, ver=6, conf=rng.getrandbits(17), maxpdu=500)
 
+        SCS = [0x30, 0x30, 0x31, 0x32, 0x70, 0xB0, 0xF0, 0x10, 0x20, 0x72, 0xB1]      # (key-set and compression bits alone and together)
+
         def gireq(n):
-            return dict(k="gireq", sc=0x30, ic=rng.getrandbits(32), data=rb(n))
+            return dict(k="gireq", sc=rng.choice(SCS), ic=rng.getrandbits(32), data=rb(n))
 
         def gires(n):
-            return dict(k="gires", sc=0x30, ic=rng.getrandbits(32), data=rb(n))
+            return dict(k="gires", sc=rng.choice(SCS), ic=rng.getrandbits(32), data=rb(n))
 
         def cse():
             return dict(k="cse", t=6, v=rng.randint(0, 4))
@@ -305,7 +320,8 @@ class C02(fw.Prop):
                 yield mk(dict(k="rlre", reason=reason, ui=ui))
         # ciphered user-information of every length class in every APDU kind: content lengths across 127/128, 255/256/257, 300,
         # 1000, 65535/65536 (long-form lengths of 1, 2 and 3 bytes)
-        for n in [100, 118, 119, 120, 121, 122, 230, 236, 237, 238, 239, 240, 241, 245, 250, 256, 300, 1000] + ([65400, 65535, 65600] if deep else [65600]):
+        for n in [100, 118, 119, 120, 121, 122, 123, 230, 236, 237, 238, 239, 240, 241, 245, 248, 249, 250, 251, 252, 253, 256, 300, 1000] + \
+                ([65400, 65530, 65531, 65535, 65600] if deep else [65531, 65600]):
             yield mk(dict(k="rlrq", reason=rng.choice([None, 0, 1, 30]), ui=gireq(n)))
             yield mk(dict(k="rlre", reason=rng.choice([None, 0, 1, 30]), ui=gires(n)))
             yield mk(dict(k="aarq", ciph=1, title=rb(8), cert=None, mech=rng.choice([None, 5]), val=None, ui=gireq(n)))
